@@ -32,6 +32,8 @@ def run(ctx) -> None:
     r7_walkers(ctx)
     r8_state_conditions(ctx)
     r9_no_dunder_comparisons(ctx)
+    r10_field_name_tracking(ctx)
+    r11_negation_per_name(ctx)
 
 
 # ------------------------------------------------------------------------------------------ R1
@@ -563,3 +565,61 @@ def r7_walkers(ctx, rid: str = "C13.R7", scope=("sigma.processing", "sigma.valid
                     r.violation(rid, q, stmt_head(node, 140) if isinstance(node, ast.stmt) else short(node, 140),
                                 "this walk over detection_items does not recurse into nested SigmaDetection objects: items at nesting depth ≥ 2 (lists of maps, results of one-to-many mappings) are invisible to it", loc)
     r.floor(rid, 5)
+
+
+def r10_field_name_tracking(ctx) -> None:
+    """processing_item_applied as a field-name condition reads the per-name tracking of the pipeline: every place that maps
+    a field name has to record it there, and the history of a name must still be there when the name is met again."""
+    r, prog = ctx.r, ctx.prog
+    r.rule("C13.R10", "field-name tracking: every routine of the field mapping base class that replaces a field name (field list / field references / correlation fields via _apply_field_name, the detection item's own field in apply_detection_item) records the mapping with track_field_processing_items under the same gate; recording a mapping does not delete the history of the source name, which can occur again elsewhere in the rule")
+    TBQ = "sigma.processing.transformations.base.FieldMappingTransformationBase"
+    for mn, store in (("_apply_field_name", None), ("apply_detection_item", "detection_item.field")):
+        f = prog.func(f"{TBQ}.{mn}")
+        calls = [c for c in walk_no_nested(f.node) if isinstance(c, ast.Call) and call_name(c) == "self._pipeline.track_field_processing_items"]
+        if not calls:
+            r.violation("C13.R10", f.qual, "self._pipeline.track_field_processing_items(...)",
+                        "a field name is replaced here without being recorded in the pipeline's field-name tracking: a following item whose field name condition is processing_item_applied(<this item>) is never applied to the renamed field (for a detection item's own field: `renamed=\"x\"` stays unprefixed while the same name in the field list is prefixed)", f.loc)
+            continue
+        gs = atomic_guards(guards_at(prog, f, calls[0]))
+        gated = any("match_field_name(field)" in g and p for g, p in gs) or any("self.processing_item is None" in g for g, p in gs)
+        if gated:
+            r.ok("C13.R10", f.qual, "mapping recorded with track_field_processing_items under the field name gate", f"{f.module.relpath}:{calls[0].lineno}")
+        else:
+            r.violation("C13.R10", f.qual, short(calls[0], 100), f"the mapping is recorded outside the field name gate ({gs}): names the item did not process are marked as processed", f"{f.module.relpath}:{calls[0].lineno}")
+    t = prog.func("sigma.processing.pipeline.ProcessingPipeline.track_field_processing_items")
+    dels = [d for d in walk_no_nested(t.node) if isinstance(d, ast.Delete) and "field_name_applied_ids" in unparse(d)]
+    if dels:
+        r.violation("C13.R10", t.qual, unparse(dels[0]),
+                    "the tracking set of the source name is deleted when a mapping is recorded: the same name met again later in the rule (the field list is mapped before the detection items) has lost its history, so a processing_item_applied field name condition holds for one occurrence and not for the other", f"{t.module.relpath}:{dels[0].lineno}")
+    else:
+        r.ok("C13.R10", t.qual, "the history of the source name is kept", t.loc)
+    r.floor("C13.R10", 3)
+
+
+def r11_negation_per_name(ctx) -> None:
+    """A detection item has several field names (its field, referenced fields). The item-level form of a field name
+    condition is 'holds for any of them'; negating *that* gives 'holds for none', which is not 'the negated condition
+    holds for one of them' — the per-name gates (match_field_name / match_field_in_value) negate per name."""
+    r, prog = ctx.r, ctx.prog
+    r.rule("C13.R11", "negation of field name conditions is applied per field name: no `not` is applied to the any-name result of match_detection_item (ProcessingItem.match_detection_item's negation flag, ConditionNOT.match_detection_item)")
+    n = 0
+    pi = prog.func("sigma.processing.pipeline.ProcessingItem.match_detection_item")
+    for st in walk_no_nested(pi.node):
+        if isinstance(st, ast.Assign) and unparse(st.targets[0]) == "field_name_cond_result" and isinstance(st.value, ast.UnaryOp) and isinstance(st.value.op, ast.Not):
+            n += 1
+            defs = [unparse(v) for v in assignments_to(pi.node, "field_name_cond_result") if isinstance(v, ast.AST)]
+            if any("match_detection_item(" in d for d in defs):
+                r.violation("C13.R11", pi.qual, unparse(st) + "  [field_name_condition_negation]",
+                            "the negation flag is applied to 'condition holds for the field OR for a referenced field': with include_fields [keep] + field_name_cond_not the item `keep|fieldref: other` is rejected by this pre-gate although the negated condition holds for `other` (the per-name gates would map it) — equivalent spellings (exclude_fields) behave differently", f"{pi.module.relpath}:{st.lineno}")
+            else:
+                r.ok("C13.R11", pi.qual, "negation applied to a per-name result", f"{pi.module.relpath}:{st.lineno}")
+    cn = prog.func("sigma.processing.condition_expressions.ConditionNOT.match_detection_item")
+    n += 1
+    if any(isinstance(x, ast.UnaryOp) and isinstance(x.op, ast.Not) and "match_detection_item(" in unparse(x.operand) for x in walk_no_nested(cn.node)):
+        r.violation("C13.R11", cn.qual, "return not self.condition.match_detection_item(detection_item)",
+                    "`not c` in a field name condition expression negates the any-name result of c for the whole detection item (same defect as the negation flag)", cn.loc)
+    else:
+        r.ok("C13.R11", cn.qual, "expression negation is evaluated per field name", cn.loc)
+    if n < 2:
+        raise AnalysisError("C13.R11: negation sites not found")
+    r.floor("C13.R11", 2)
